@@ -998,6 +998,13 @@ def part_copy_passes(ctx):
         stats["changed"][r["pass"]] = stats["changed"].get(r["pass"], 0) + 1
     for r in recs:
         stats["distinct_changed"][r["pass"]] = stats["distinct_changed"].get(r["pass"], 0) + 1
+    if quick:
+        # every invocation on the programs written for these passes, a seeded sample of the others (<= 60 s on an idle machine)
+        own_ = {c["name"] for c in COPY_CORPUS}
+        head = [r for r in recs if r["context"][0] in own_]
+        rest = [r for r in recs if r["context"][0] not in own_]
+        recs = head + rnd.sample(rest, min(len(rest), 5))
+        stats["evaluated_in_quick"] = len(recs)
     todo, verdict = [], {}
     RO, IR = "ReadonlyInvokeArgCopyForwardingPass", "InternalReturnCopyForwardingPass"
     for i, r in enumerate(recs):
@@ -1025,11 +1032,7 @@ def part_copy_passes(ctx):
             if changes(r) is None:
                 why = "block structure changed"
         elif r["pass"] == IR:
-            r["ir"] = internal_return_check(r)
-            r["why"] = {"internal_return_check": r["ir"]}
-            if r["ir"] is not None:
-                verdict[i] = "rejected"
-                continue
+            r["ir"] = internal_return_check(r)     # Python pre-check: gives the reason; the verdict needs the proved checkers too
             r["pair"] = {"before": r["before"], "after": r["after"], "steps": ir_steps(r)}
             todo.append(i)
             continue
@@ -1045,10 +1048,10 @@ def part_copy_passes(ctx):
                 r = recs[i]
                 ok = r["pass"] != IR and o[0] == 1 and o[3] == 1 and not r.get("dead") and not r.get("recheck_bad")
                 if r["pass"] == IR:
-                    ok = all(v == 1 for v in o)
-                    r["why"] = {"internal_return_check": None, "steps": [st[0] for st in r["pair"]["steps"]], "results": list(o)}
+                    ok = all(v == 1 for v in o) and r["ir"] is None
+                    r["why"] = {"internal_return_check": r["ir"], "steps": [st[0] for st in r["pair"]["steps"]], "results": list(o)}
                 verdict[i] = "accepted" if ok else "rejected"
-                if r["pass"] == IR and not ok:
+                if r["pass"] == IR and not ok and r["ir"] is None:
                     # internal_return_check (Python) accepted: the instance is outside the domain of the proved checker
                     why = "outside ir_check (chain of forwarded buffers, or a derived pointer used outside the block / before its definition)"
                     verdict[i] = "unsupported"
